@@ -245,6 +245,13 @@ def run(c, facts):
     c.shared(R8, c08.r14_same_winner, 'C08.R14', facts)
     R10 = c.rule('C18.R10', 'FOLDERS: a rename is computed in every workspace folder whose program contains the document (shared with C17.R6)')
     c.shared(R10, c17.r6_folders, 'C17.R6', facts)
+    import c11 as _c11
+    import c16 as _c16
+    R12 = c.rule('C18.R12', 'LOADER-TEXT: the spans of the edits are byte offsets into the very text the positions are computed with: the server parses what it holds, unchanged (shared with C11.R1)')
+    c.shared(R12, _c11.r1_lex_range, 'C11.R1', facts)
+    sc = ['oal_client::lsp::unicode::utf8_to_position', 'oal_client::lsp::unicode::utf8_range_to_position', 'oal_client::lsp::unicode::position_to_utf8',
+          'oal_client::lsp::handlers::node_location', 'oal_client::lsp::handlers::prepare_rename', 'oal_client::lsp::handlers::rename']
+    _c16.run_units(c, facts, rule_prefix='C18.U', scope=sc, must=sc[:3], floors=False)
     c.run(r6_prepare_target, facts)
     c.run(r11_qualifier_binders, facts)
     c.run(r4_qualifier_local, facts)
